@@ -1,3 +1,8 @@
 import KcpVerif.Generated
 import KcpVerif.Model.Ring
 import KcpVerif.Props.C20
+import KcpVerif.Model.GF256
+import KcpVerif.Model.RS
+import KcpVerif.Model.AutoTune
+import KcpVerif.Model.Fec
+import KcpVerif.Lemmas.RS
